@@ -325,6 +325,25 @@ func ops11(kind int, w *world) []op11 {
 				return decRes(v, err, p)
 			}})
 		}
+		for _, bi := range []int{1, 4} {
+			bi := bi
+			ops = append(ops, op11{"ReadFrom(the reader object of the previous ReadFrom, refilled) " + w.bnames[bi], true, func(in *inst11) string {
+				if in.sr == nil {
+					in.sr = guard.NewReader(nil)
+				}
+				in.sr.Data, in.sr.Pos, in.sr.Calls = w.bins[bi], 0, 0
+				var v interface{}
+				var err error
+				p := core.Catch(func() {
+					if in.kind == 1 {
+						v, err = in.dec.ReadFrom(in.sr)
+					} else {
+						v, err = in.ser.ReadFrom(in.sr)
+					}
+				})
+				return decRes(v, err, p)
+			}})
+		}
 		ops = append(ops, op11{"streaming read (next value of the open stream)", false, func(in *inst11) string {
 			if in.sr == nil {
 				return "skipped (no stream open)"
@@ -521,11 +540,63 @@ func init() {
 					c.Outcome("long-ok")
 					c.Cover("long:" + kind11Names[kind])
 				}})
+				// one operation repeated far beyond every counter width, probed with every one-shot operation
+				us = append(us, core.Unit{Name: "very-long:" + kind11Names[kind], Cost: 40, Run: func(c *core.Ctx) {
+					w0 := newWorld()
+					ops0 := ops11(kind, w0)
+					fresh := make([]string, len(ops0))
+					for i, op := range ops0 {
+						if op.oneShot {
+							ww := newWorld()
+							fresh[i] = ops11(kind, ww)[i].run(newInst(kind, ww))
+						}
+					}
+					n := tierPick(tier, 66000, 140000)
+					probesAt := map[int]bool{255: true, 256: true, 257: true, 4096: true, 32768: true, 65535: true, 65536: true, 65537: true, 131072: true}
+					for a, opa := range ops0 {
+						if !opa.oneShot || len(fresh[a]) > 400 || strings.Contains(opa.name, "long string") {
+							continue
+						}
+						if !c.Begin() {
+							continue
+						}
+						c.NontrivialN(1)
+						ww := newWorld()
+						in := newInst(kind, ww)
+						ops := ops11(kind, ww)
+						bad := ""
+						for i := 1; i <= n && bad == ""; i++ {
+							in.results, in.copies = in.results[:0], in.copies[:0]
+							if res := ops[a].run(in); res != fresh[a] {
+								bad = fmt.Sprintf("call #%d of %q differs from a fresh instance's result", i, ops[a].name)
+							}
+							c.Res.Transitions++
+							if probesAt[i] {
+								for b := range ops {
+									if ops[b].oneShot {
+										if res := ops[b].run(in); res != fresh[b] && bad == "" {
+											bad = fmt.Sprintf("after %d calls of %q, %q differs from a fresh instance's result", i, ops[a].name, ops[b].name)
+										}
+									}
+								}
+							}
+						}
+						if bad == "" {
+							bad = ww.unchanged()
+						}
+						if bad != "" {
+							c.Report(&core.Violation{Stage: "very-long", Kind: "differs-from-fresh", Shape: kind11Names[kind], Message: msgClass(bad), Case: fmt.Sprintf("%s: %q x %d with probes", kind11Names[kind], opa.name, n)})
+						}
+						c.Res.States++
+					}
+					c.Outcome("very-long-ok")
+					c.Cover("very-long:" + kind11Names[kind])
+				}})
 			}
 			return us
 		},
 		RequireCover: func(string) []string {
-			return []string{"op:Encoder", "op:Decoder", "op:Serializer", "long:Encoder", "long:Decoder", "long:Serializer"}
+			return []string{"very-long:Encoder", "very-long:Decoder", "op:Encoder", "op:Decoder", "op:Serializer", "long:Encoder", "long:Decoder", "long:Serializer"}
 		},
 	})
 }
